@@ -136,9 +136,16 @@ class HTTPFile(io.IOBase):
             self.cache[index] = self.download_range(start, stop)
         if len(self.cache) > self._keep_chunks:
             for kk in self.cache.keys():
-                if kk != 0:  # always keep the first chunk
+                # always keep the first chunk and never evict the
+                # chunk that was just requested
+                if kk != 0 and kk != index:
                     self.cache.pop(kk)
                     break
+            else:
+                # Only the first chunk and the requested chunk are left
+                # (`keep_chunks` is 1): give up the first chunk.
+                if index != 0:
+                    self.cache.pop(0, None)
         return self.cache[index]
 
     def read(self, size=-1, /):
